@@ -664,8 +664,12 @@ def ecompass(a: np.ndarray, m: np.ndarray, frame: str = 'ENU', representation: s
         raise ValueError("Both vectors must have the same shape.")
     if len(a) != 3:
         raise ValueError("Input vectors must have exactly 3 elements.")
-    m /= np.linalg.norm(m)
-    Rz = a/np.linalg.norm(a)
+    a_norm = np.linalg.norm(a)
+    m_norm = np.linalg.norm(m)
+    if a_norm == 0 or m_norm == 0:
+        raise ValueError("Both vectors must be non-zero.")
+    m /= m_norm
+    Rz = a/a_norm
     if frame.upper() == 'NED':
         Ry = np.cross(Rz, m)
         Rx = np.cross(Ry, Rz)
